@@ -1,8 +1,53 @@
-/- Driver ops for C18 (none yet). -/
+/- Driver ops for C18: parse a recorded event trace against the bracket grammar of `Model/Effects.lean`. -/
 import Xrfmv.Drv.Common
+import Xrfmv.Model.Effects
+
+open Lean Xrfmv.Drv
 
 namespace Xrfmv.Drv.C18
+open Xrfmv.Effects
 
-def ops : List (String × Handler) := []
+/-- `{"e": "getThreads"} | {"e": "setThreads", "n": 3} | {"e": "envGet"} | {"e": "envSet", "v": "..."} | {"e": "envDel"}` -/
+def getEvent (j : Json) : Except String Event := do
+  let k ← j.getObjValAs? String "e"
+  match k with
+  | "getThreads" => pure .getThreads
+  | "setThreads" => pure (.setThreads (← j.getObjValAs? Nat "n"))
+  | "envGet" => pure .envGet
+  | "envSet" => pure (.envSet (← j.getObjValAs? String "v"))
+  | "envDel" => pure .envDel
+  | other => throw s!"bad-op: unknown event {other}"
+
+def getState (j : Json) : Except String State := do
+  let th ← j.getObjValAs? Nat "threads"
+  let env ← match j.getObjVal? "env" with
+    | .ok Json.null => pure none
+    | .ok (Json.str v) => pure (some v)
+    | .ok _ => throw "bad-op: env must be a string or null"
+    | .error _ => throw "bad-op: env missing"
+  pure { threads := th, env := env }
+
+def stateJson (s : State) : Json :=
+  Json.mkObj [("threads", toJson s.threads), ("env", match s.env with | some v => Json.str v | none => Json.null)]
+
+def getEvents (j : Json) : Except String (List Event) := do
+  let arr ← j.getObjValAs? (Array Json) "events"
+  arr.toList.mapM getEvent
+
+/-- Parse against the grammar: final state, or the position of the first event that does not fit. -/
+def opAccept : Handler := fun j => do
+  let s ← getState j
+  let evs ← getEvents j
+  match accept s evs with
+  | .ok s' => pure <| Json.mkObj [("ok", toJson true), ("final", stateJson s')]
+  | .error pos => pure <| Json.mkObj [("ok", toJson false), ("pos", toJson pos), ("final", stateJson (exec s evs))]
+
+/-- Plain semantics of a flat trace (used for calls that raise: no grammar claimed). -/
+def opExec : Handler := fun j => do
+  let s ← getState j
+  let evs ← getEvents j
+  pure <| Json.mkObj [("final", stateJson (exec s evs))]
+
+def ops : List (String × Handler) := [("accept", opAccept), ("exec", opExec)]
 
 end Xrfmv.Drv.C18
